@@ -12,3 +12,14 @@ pub broadcast axiom fn axiom_string_ext(a: String, b: String)
 pub fn vec_from1<T>(x: T) -> (r: Vec<T>)
     ensures r@ == seq![x]
 { Vec::from([x]) }
+
+// class S: `a == b` on String / str. vstd accepts the operator but gives it no meaning; the wrapper's body is that operator.
+#[verifier::external_body]
+pub fn string_eq_str(a: &String, b: &str) -> (r: bool)
+    ensures r == (a@ == b@)
+{ a == b }
+
+#[verifier::external_body]
+pub fn string_eq(a: &String, b: &String) -> (r: bool)
+    ensures r == (a@ == b@)
+{ a == b }
